@@ -6,6 +6,7 @@ import json
 import multiprocessing as mp
 import os
 import random
+import re
 import sys
 import time
 import traceback
@@ -300,7 +301,7 @@ def run_property(pid, tier="quick", seed=0, jobs=None, extra=None):
         for rep in reports:
             if rep.get("n_failures"):
                 os.makedirs(os.path.join(VERIF, "replays", pid), exist_ok=True)
-                rp = os.path.join(VERIF, "replays", pid, "bounded_" + rep["function"].split(":")[-1].replace(".", "_") + ".json")
+                rp = os.path.join(VERIF, "replays", pid, "bounded_" + re.sub(r"[^A-Za-z0-9_]+", "_", rep["function"].split(":")[-1].split(" (")[0]).strip("_") + ".json")
                 with open(rp, "w") as fh:
                     json.dump({"property": pid, "obligation": "bounded:" + rep["function"], "bounded": rep, "replayed_on_real_code": True}, fh, indent=1, default=str)
                 extra.setdefault("violations", []).append("VIOLATION property=%s replay=%s" % (pid, rp))
